@@ -1,7 +1,7 @@
 #!/bin/bash
-# Run a check against a seeded change in a scratch worktree that follows /repo HEAD.                                       
+# Run a check against a seeded change in a scratch worktree that follows /repo HEAD.           
 id=$1; tier=${2:-quick}; pid=${id%%-*}
-case "$id" in *-r4*) wt=/tmp/seed4/$pid;; *-r3*) wt=/tmp/seed3/$pid;; *-r2*) wt=/tmp/seed2/$pid;; *) wt=/tmp/seed/$pid;; esac
+case "$id" in *-r5*) wt=/tmp/seed5/$pid;; *-r4*) wt=/tmp/seed4/$pid;; *-r3*) wt=/tmp/seed3/$pid;; *-r2*) wt=/tmp/seed2/$pid;; *) wt=/tmp/seed/$pid;; esac
 cd /verif
 git -C $wt checkout -q -- . && git -C $wt clean -fdq -e target
 git -C $wt checkout -q --detach $(git -C /repo rev-parse HEAD)
